@@ -24,8 +24,19 @@ pub fn ncpus() -> usize {
 
 // ------------------------------------------------------------------ worker
 
+pub fn limit_address_space(bytes: u64) {
+    unsafe {
+        let lim = libc::rlimit { rlim_cur: bytes, rlim_max: bytes };
+        libc::setrlimit(libc::RLIMIT_AS, &lim);
+    }
+}
+
 pub fn worker_main(scn: &dyn Scenario, thorough: bool, seed: u64, w: usize, n: usize, wall_cap_s: u64) -> i32 {
     pin_to_cpu(w % ncpus());
+    if scn.memory_limit() > 0 {
+        // allocation failure aborts the process: the driver reports the dead worker with its case
+        limit_address_space(scn.memory_limit());
+    }
     amiquip_simrt::install_panic_hook(std::env::var("SIM_PANIC_PRINT").is_ok());
     let plan = scn.plan(thorough, seed);
     let out = std::io::stdout();
